@@ -115,6 +115,9 @@ func parseRat(v string) float64 {
 }
 func Atom(name string) string {
 	v, _ := next(name)
+	if len(v) > 0 && v[0] == '=' {
+		return v[1:] // the model says this atom equals a concrete string (e.g. "" or a declared option)
+	}
 	return "atom" + v
 }
 func Bytes(name string, n int) []byte {
